@@ -352,8 +352,11 @@ func genBlocks(r *core.Rand) (string, bool) {
 			edge = append(edge, n1, g.maxFile-(n1+12)-12+d)
 		}
 	}
+	// simulated layout of the block files (exact while nothing was pruned or lost)
+	simFile, simOff, simExact := 0, 0, true
 	for tx := 2 + r.Intn(4); tx > 0; tx-- {
 		g.begin()
+		var lens []int
 		for b := 1 + r.Intn(4); b > 0; b-- {
 			id, n := g.nextBlk, 1+r.Intn(150)
 			if len(edge) > 0 {
@@ -365,6 +368,7 @@ func genBlocks(r *core.Rand) (string, bool) {
 			g.nextBlk++
 			g.blocks = append(g.blocks, id)
 			g.blkLen[id] = n
+			lens = append(lens, n)
 			g.add("sb:w:%d:%d", id, n)
 			if r.Chance(1, 3) {
 				g.blockRead("w")
@@ -373,7 +377,29 @@ func genBlocks(r *core.Rand) (string, bool) {
 		if r.Chance(1, 3) {
 			g.add("p:w:.:%s:%s", g.key(), hx(r.Bytes(2)))
 		}
-		g.end(r.Chance(5, 6))
+		if commit := r.Chance(5, 6); commit {
+			g.end(true)
+			for _, n := range lens {
+				if simOff+n+12 > g.maxFile {
+					simFile, simOff = simFile+1, 0
+				}
+				simOff += n + 12
+			}
+		} else {
+			g.end(false)
+		}
+		if simExact && simFile > 0 && r.Chance(1, 2) {
+			// prune decisions exactly at / one below the size estimate, observed in
+			// transactions that are rolled back
+			total := simOff + g.maxFile*simFile
+			for _, t := range []int{total, total - 1, total - g.maxFile, total - g.maxFile - 1} {
+				if t >= g.maxFile {
+					g.add("bw:w")
+					g.add("pr:w:%d", t)
+					g.add("rb:w")
+				}
+			}
+		}
 		switch r.Intn(8) {
 		case 0:
 			g.add("fl")
@@ -381,9 +407,12 @@ func genBlocks(r *core.Rand) (string, bool) {
 			g.add("ro")
 		case 2:
 			g.add("cp")
+			simExact = false
 		case 3:
 			g.add("cps")
+			simExact = false
 		case 4:
+			simExact = false
 			g.begin()
 			// around the size estimate when the last file holds just the last block
 			last := 0
